@@ -403,8 +403,11 @@ def add_lets(I, ct, env, new_heap, old_heap, outcome="normal"):
     return env
 
 
-def verify_unit(world, func, ct, receiver=None, unit_name=None, setup=None, max_paths=4000, case=()):
-    """Symbolically execute `func` against contract `ct`; returns (obligations, stats)."""
+def verify_unit(world, func, ct, receiver=None, unit_name=None, setup=None, max_paths=4000, case=(), collector=None):
+    """Symbolically execute `func` against contract `ct`; returns (obligations, stats).
+
+    With a `collector` list the paths are only summarised (path condition, outcome, final heap) for a relational
+    comparison (pyvc/relational.py); no clause is checked."""
     unit_name = unit_name or (func.qualname + (f"[{receiver.module.rsplit('_', 1)[-1]}]" if isinstance(receiver, ClassVal) else ""))
     all_obligs = []
     stats = {"paths": 0, "unit": unit_name, "outcomes": {}, "feas_unknown": 0}
@@ -438,6 +441,7 @@ def verify_unit(world, func, ct, receiver=None, unit_name=None, setup=None, max_
         if ctx.solver.check() == z3.unsat:
             raise Unsupported(f"{unit_name}: requires is unsatisfiable (vacuous contract)")
         fs = eval_modifies(I, ct, env, heap0)
+        ctx.prologue_fresh = ctx.n_fresh
         if getattr(ct, "closure_params", None):
             cf = Frame(None, world.modules[func.module].ns)
             cf.locals = {k: args_env[k] for k in ct.closure_params}
@@ -458,6 +462,9 @@ def verify_unit(world, func, ct, receiver=None, unit_name=None, setup=None, max_
         key = outcome if outcome != "raise" else f"raise:{val.cls.name}"
         stats["outcomes"][key] = stats["outcomes"].get(key, 0) + 1
         ctx.note(f"outcome={key}")
+        if collector is not None:
+            collector.append({"ctx": ctx, "I": I, "key": key, "heap0": heap0, "heap1": heap1, "val": val})
+            return outcome
         if outcome == "raise":
             clauses = None
             for ename, cl in ct.raises.items():
@@ -752,7 +759,7 @@ def exec_while(I, s, fr):
         return
     except ContinueSig:
         pass
-    lc = I.w.loops.get((fr.func.qualname, loop_ordinal(fr.func, s))) if fr.func is not None else None
+    lc = find_loop_contract(I, fr.func, loop_ordinal(fr.func, s)) if fr.func is not None else None
     if lc is not None:  # obligations of one full iteration, checked at the back edge
         env = dict(I.c.env)
         env.update(fr.locals)
@@ -761,12 +768,35 @@ def exec_while(I, s, fr):
     raise PathEnd("loop-back")
 
 
+def n_loops(func):
+    return sum(1 for node in ast.walk(func.node) if isinstance(node, (ast.For, ast.While, ast.AsyncFor)))
+
+
+def find_loop_contract(I, func, ordn):
+    """The loop contract keyed by (function, loop ordinal).  When the loop was moved into a helper that is executed inline
+    (extract-function refactoring), the contract its old place in the unit's top function leaves orphaned is used for it:
+    its clauses are evaluated over the unit's parameters plus the locals of the frame the loop now runs in."""
+    table = dict(I.w.loops)
+    table.update(getattr(I, "loop_override", {}))
+    lc = table.get((func.qualname, ordn))
+    if lc is not None:
+        return lc
+    top = getattr(I, "top", None)
+    if top is not None and top is not func:
+        have = n_loops(top)
+        orphans = [v for (q, k), v in table.items() if q == top.qualname and k >= have]
+        if len(orphans) == 1 and n_loops(func) == 1:
+            I.c.note(f"loop contract of {top.qualname} relocated to {func.qualname}")
+            return orphans[0]
+    return None
+
+
 def exec_symbolic_for(I, s, it, fr):
     """for over a heap dict: inductive invariant with the ghost set `done` (DESIGN.md §3.3)."""
     c = I.c
     func = fr.func
     ordn = loop_ordinal(func, s)
-    lc = getattr(I, "loop_override", {}).get((func.qualname, ordn)) or I.w.loops.get((func.qualname, ordn))
+    lc = find_loop_contract(I, func, ordn)
     if lc is None:
         raise Unsupported(f"loop {ordn} of {func.qualname} has no invariant")
     if isinstance(it, Obj):
